@@ -1,9 +1,18 @@
 #!/usr/bin/env python3
 """prints the prompt for a fresh seeding sub-agent for property <ID> (property text only; nothing from /verif)"""
 import json, sys
+import glob, os
 pid = sys.argv[1]; n = sys.argv[2] if len(sys.argv) > 2 else "4"
+rnd = sys.argv[3] if len(sys.argv) > 3 else ""
+tried = []
+for d in sorted(glob.glob("/verif/seeded/%s-*" % pid)):
+    try: tried.append(json.load(open(os.path.join(d, "meta.json"))).get("title", ""))
+    except Exception: pass
+avoid = ""
+if tried:
+    avoid = "\n\nEarlier testers already tried the following ideas — do NOT repeat them or close variants; look for DIFFERENT mechanisms, files, code paths and kinds of trigger:\n" + "\n".join("- " + t for t in tried if t)
 p = [json.loads(l) for l in open("/verif/properties.jsonl") if json.loads(l)["id"] == pid][0]
-print(f"""You are helping test a verification tool by seeding realistic bugs. You work ONLY inside the git worktree `/tmp/mut-{pid}` (a checkout of the Go library whatap/golib). Do not read or touch `/verif` or `/repo`. No network: run `export GOFLAGS=-mod=mod GOPROXY=off GOSUMDB=off GOTOOLCHAIN=local` in every shell. Always wrap commands in `timeout`.
+print(f"""You are helping test a verification tool by seeding realistic bugs. You work ONLY inside the git worktree `/tmp/mut-{pid}{rnd}` (a checkout of the Go library whatap/golib). Do not read or touch `/verif` or `/repo`. No network: run `export GOFLAGS=-mod=mod GOPROXY=off GOSUMDB=off GOTOOLCHAIN=local` in every shell. Always wrap commands in `timeout`.
 
 Property under test ({pid}: {p['title']}), anchored in: {', '.join(p['anchors']['files'])}
 
@@ -11,9 +20,9 @@ Property under test ({pid}: {p['title']}), anchored in: {', '.join(p['anchors'][
 
 Quantifier: {p['quantifier']['text']}
 
-Task: produce {n} different, independent changes to the library source (each its own patch against the pristine worktree HEAD) that each break this property while the library still compiles (`go build ./...`) and the existing test suite still passes (`timeout 900 go test -vet=off -count=1 ./... 2>&1 | grep -v 'no test files' | tail -40`; the two network tests TestMultiConnect and TestSingleConnect in net/oneway fail offline anyway — ignore those two). Ask yourself what would realistically go wrong in maintenance: prefer changes that need something specific to manifest — a particular interleaving, a crash or fault at a particular point, a multi-step sequence of operations, an unusual input (boundary value, rare branch, particular version/configuration), or two cooperating sites that each look fine alone — not ones that ordinary use would expose at once. Make them look like plausible refactoring / optimisation / cleanup mistakes. Keep each patch small. Spread the changes over different files / mechanisms of the property. Do not change test files and do not add build tags.
+Task: produce {n} different, independent changes to the library source (each its own patch against the pristine worktree HEAD) that each break this property while the library still compiles (`go build ./...`) and the existing test suite still passes (`timeout 900 go test -vet=off -count=1 ./... 2>&1 | grep -v 'no test files' | tail -40`; the two network tests TestMultiConnect and TestSingleConnect in net/oneway fail offline anyway — ignore those two). Ask yourself what would realistically go wrong in maintenance: prefer changes that need something specific to manifest — a particular interleaving, a crash or fault at a particular point, a multi-step sequence of operations, an unusual input (boundary value, rare branch, particular version/configuration), or two cooperating sites that each look fine alone — not ones that ordinary use would expose at once. Make them look like plausible refactoring / optimisation / cleanup mistakes. Keep each patch small. Spread the changes over different files / mechanisms of the property. Do not change test files and do not add build tags.{avoid}
 
-For each change i = 1..{n} write into `/tmp/mut-{pid}-out/<i>/`:
+For each change i = 1..{n} write into `/tmp/mut-{pid}{rnd}-out/<i>/`:
 - `patch.diff` (output of `git diff` in the worktree against HEAD for that change alone),
 - `demo_test.go` — a Go test file to be dropped into ONE package directory of the library (say which in meta.json as "demo_dir", e.g. "util/hmap"; use the package name of that directory or its `_test` external package) whose test FAILS with the change and PASSES without it; verify both yourself (apply patch → `go test -run <TestName> ./<demo_dir>/` fails; `git checkout -- .` → it passes). The demo must be deterministic or retry enough to be reliable, and finish within 60 s.
 - `meta.json`: {{"property":"{pid}","title":…,"what_it_breaks":…,"needs_to_manifest":…,"files":[…],"demo_dir":…,"verified":"commands you ran and what they showed"}}.
